@@ -1,6 +1,8 @@
 package vm
 
 import (
+	"bytes"
+	"encoding/json"
 	"fmt"
 	"math/big"
 
@@ -29,6 +31,20 @@ type ScriptV1 struct {
 	Vars map[string]any `json:"vars"`
 }
 
+// UnmarshalJSON keeps JSON numbers of the variables as json.Number, so that an
+// amount given as a number is not rounded through float64.
+func (s *ScriptV1) UnmarshalJSON(data []byte) error {
+	type scriptV1 ScriptV1
+	dec := json.NewDecoder(bytes.NewReader(data))
+	dec.UseNumber()
+	v := scriptV1{}
+	if err := dec.Decode(&v); err != nil {
+		return err
+	}
+	*s = ScriptV1(v)
+	return nil
+}
+
 func (s ScriptV1) ToCore() Script {
 	s.Script.Vars = map[string]string{}
 	for k, v := range s.Vars {
@@ -39,6 +55,13 @@ func (s ScriptV1) ToCore() Script {
 			switch amount := v["amount"].(type) {
 			case string:
 				s.Script.Vars[k] = fmt.Sprintf("%s %s", v["asset"], amount)
+			case json.Number:
+				if exact, ok := new(big.Int).SetString(amount.String(), 10); ok {
+					// an integer literal of any magnitude is passed through as is
+					s.Script.Vars[k] = fmt.Sprintf("%s %s", v["asset"], exact)
+				} else if f, err := amount.Float64(); err == nil {
+					s.Script.Vars[k] = fmt.Sprintf("%s %d", v["asset"], int(f))
+				}
 			case float64:
 				s.Script.Vars[k] = fmt.Sprintf("%s %d", v["asset"], int(amount))
 			}
